@@ -20,6 +20,8 @@ EXPLANATION = (
     " after every constructor. (O3.8) an Excel cell holding 0 or FALSE reaches the guards as the text 0, not as an"
     " empty cell (C16's table). A fixed cell of blanks and other white space is a non-empty cell: it is guarded"
     " and handed to the type without its surrounding blanks only."
+    " Added in round 10: (O3.7) the row table hands the checks the cells, not the typed values the fields"
+    " return."
 )
 ASSUMPTIONS = [
     "Range.validate decides membership correctly (C01)",
